@@ -27,7 +27,7 @@ TRUSTED = ["CPython gc / sys / threading / warnings / traceback module attribute
 
 OPTS = ["gc", "gcopt", "coverage", "profile", "buffer"]
 ENDINGS = ["pass", "fail", "stop", "hook-raises", "interrupt", "ttd-raises-skip", "ttd-raises-fail", "ttd-raises-interrupt",
-           "ttd-raises-failskip", "chdir"]
+           "ttd-raises-failskip", "chdir", "rebind-err", "rebind-out", "rebind-both"]
 FIELDS = ["gcThr", "gcDbg", "tbFormat", "tbPrint", "trace", "thrTrace", "setTrace", "profile", "warn", "stdout", "stderr"]
 
 
@@ -37,7 +37,9 @@ def make_world(ctx, ending, idx):
     kinds = {"pass": ["pass"], "fail": ["pass", "fail", "error"], "stop": ["fail", "pass"],
              "hook-raises": ["pass"], "interrupt": ["pass"], "ttd-raises-skip": ["skipBody"],
              "ttd-raises-fail": ["fail", "subFail2"], "ttd-raises-interrupt": ["pass"],
-             "ttd-raises-failskip": ["subFailThenSkip", "failThenSkipTearDown"], "chdir": ["pass", "fail"]}[ending]
+             "ttd-raises-failskip": ["subFailThenSkip", "failThenSkipTearDown"], "chdir": ["pass", "fail"],
+             "rebind-err": ["fail", "error", "pass"], "rebind-out": ["fail", "error", "pass"],
+             "rebind-both": ["fail", "error", "pass"]}[ending]
     w = worlds.gen_world(rng, n_layers=2, tests_per_layer=(1, 2), kinds=kinds, p_fault=0.0, p_write=0.3)
     if ending == "hook-raises":
         for l in w["layers"]:
@@ -50,6 +52,16 @@ def make_world(ctx, ending, idx):
             if l["kind"] != "unit":
                 l["testTearDown"] = True
                 l["testTearDownRaises"] = True
+    if ending.startswith("rebind"):
+        # tests that save one or both std streams in setUp and put them back after their last clean-up
+        for t in w["tests"]:
+            t.pop("ownstream", None)
+            if not t.get("doctest"):
+                t["rebind"] = {"rebind-err": "err", "rebind-out": "out", "rebind-both": True}[ending]
+    # test code that changes the warning filters for good
+    for t in w["tests"]:
+        if rng.random() < 0.4:
+            rng.choice([t["setUp"], t["body"], t["tearDown"]])["warnfilter"] = True
     if ending == "chdir" and w["tests"]:
         # a test that leaves the process in another directory (relative paths of later tear-downs break)
         w["tests"][0]["body"]["chdir"] = True
@@ -87,7 +99,9 @@ def run_case(ctx, opts, ending, idx, pre_trace=False):
         case["pre_gc_debug"] = _gc.DEBUG_UNCOLLECTABLE | (_gc.DEBUG_COLLECTABLE if idx % 2 else 0)
     env = dict(os.environ)
     env.pop("ZTR_TRACE", None)
-    p = subprocess.run([common.PY, os.path.join(common.VERIF, "harness", "globals_worker.py"), json.dumps(case)],
+    # an interpreter started with a -W option (sys.warnoptions non-empty): the runner then installs no filter of its own
+    wopt = ["-W", "ignore::ImportWarning"] if idx % 3 == 1 else []
+    p = subprocess.run([common.PY] + wopt + [os.path.join(common.VERIF, "harness", "globals_worker.py"), json.dumps(case)],
                        stdout=subprocess.PIPE, stderr=subprocess.PIPE, env=env, timeout=180)
     shutil.rmtree(d, ignore_errors=True)
     try:
